@@ -221,10 +221,19 @@ C06SwapTf(pre, e, post) ==
 (* C06 for two-hop swaps: each leg's fee is split and booked on ITS pool exactly like a single swap's - protocol
    share added to the protocol fees owed in the leg's input token, LP share folded into that token's growth, the
    other token's counters untouched - and each pool's Traded record reports these amounts.              *)
+\* (the hook record of a leg does not carry the pool's address: it is recognised by the pool summary it starts from - price, liquidity,
+\* fee rate, both fee-growth accumulators, both protocol-fee counters, tick; two pools that agree on all of that are told apart by the
+\* order of computation: an exact-in two-hop computes leg one first, an exact-out two-hop leg two)
 LegRecord(e, pre, q, aToB) ==
   LET S == {k \in DOMAIN e.swaps : e.swaps[k].done /\ e.swaps[k].a_to_b = aToB /\ e.swaps[k].pool.sqrt_price \doteq pre.pool[q].sqrtPrice
-                                    /\ e.swaps[k].pool.liq \doteq pre.pool[q].liq /\ e.swaps[k].pool.fee_rate = pre.pool[q].feeRate}
-  IN IF S = {} THEN 0 ELSE CHOOSE k \in S : TRUE
+                                    /\ e.swaps[k].pool.liq \doteq pre.pool[q].liq /\ e.swaps[k].pool.fee_rate = pre.pool[q].feeRate
+                                    /\ e.swaps[k].pool.fg_a \doteq pre.pool[q].fgA /\ e.swaps[k].pool.fg_b \doteq pre.pool[q].fgB
+                                    /\ e.swaps[k].pool.proto_a \doteq pre.pool[q].protoA /\ e.swaps[k].pool.proto_b \doteq pre.pool[q].protoB
+                                    /\ e.swaps[k].pool.tick = pre.pool[q].tick}
+      first == (q = e.slots.whirlpool_one.id) = e.args.exactIn       \* is this pool's leg the one computed first?
+  IN IF S = {} THEN 0
+     ELSE IF Cardinality(S) = 1 THEN CHOOSE k \in S : TRUE
+     ELSE IF first THEN CHOOSE k \in S : \A j \in S : k <= j ELSE CHOOSE k \in S : \A j \in S : k >= j
 C06Leg(pre, e, post, q, aToB) ==
   LET k == LegRecord(e, pre, q, aToB) IN
   /\ Sub("leg_recorded", k # 0)
@@ -1210,6 +1219,8 @@ RewardSituations(pre, e, post) ==
          Sit("reward.interval_with_zero_liquidity", ninit > 0 /\ ~(dt \doteq 0) /\ pl.liq \doteq 0 /\ \E i \in 1..3 : pl.rewards[i].init /\ ~(pl.rewards[i].emissions \doteq 0)),
          Sit("reward.interval_dropped_by_overflow", \E i \in 1..3 : pl.rewards[i].init /\ ~(pl.liq \doteq 0) /\ WrapMod \preceq (dt \otimes pl.rewards[i].emissions)),
          Sit("reward.growth_wraps_around", \E i \in 1..3 : post.pool[p].rewards[i].growth \prec pl.rewards[i].growth),
+         Sit("reward.emissions_set_with_a_day_exactly_funded", e.name \in {"set_reward_emissions", "set_reward_emissions_v2"} /\ ~(e.args.emissions \doteq 0)
+                 /\ BDiv(86400 \otimes e.args.emissions, BPow2(64)) \doteq Bal(pre, e.slots.reward_vault.id)),
          Sit("reward.two_or_more_rewards", ninit >= 2), Sit("reward.three_rewards", ninit = 3),
          Sit("reward.emissions_changed_after_elapsed_time", e.name \in {"set_reward_emissions", "set_reward_emissions_v2"} /\ ~(dt \doteq 0) /\ ~(pl.liq \doteq 0)),
          Sit("reward.swap_crosses_tick_with_rewards", IsSwapName(e.name) /\ ninit > 0 /\ Len(e.swaps) = 1 /\ \E i \in DOMAIN e.swaps[1].steps : "crossed" \in DOMAIN e.swaps[1].steps[i]) }
@@ -1231,6 +1242,7 @@ OtherSituations(pre, e, post) ==
     Sit("twohop.exact_out", e.name \in {"two_hop_swap", "two_hop_swap_v2"} /\ ~e.args.exactIn),
     Sit("twohop.explicit_limit", e.name \in {"two_hop_swap", "two_hop_swap_v2"} /\ (~(e.args.limit1 \doteq 0) \/ ~(e.args.limit2 \doteq 0))),
     Sit("twohop.leg_crosses_a_tick", e.name \in {"two_hop_swap", "two_hop_swap_v2"} /\ \E k \in DOMAIN e.swaps : \E i \in DOMAIN e.swaps[k].steps : "crossed" \in DOMAIN e.swaps[k].steps[i]),
+    Sit("sdk.quoted_over_six_tick_arrays", IsSwapName(e.name) /\ e.sdk.present /\ "slots" \in DOMAIN e.sdk /\ e.sdk.slots = 6),
     Sit("twohop.repackaged", e.name = "two_hop_swap_v2" /\ e.pack.present),
     Sit("twohop.repackaged.second_leg_leaves_its_first_array", e.name = "two_hop_swap_v2" /\ e.pack.present /\
           LET q == e.slots.whirlpool_two.id IN ArrIdx(pre.pool[q].tick, pre.pool[q].spacing) # ArrIdx(post.pool[q].tick, post.pool[q].spacing)),
@@ -1283,6 +1295,8 @@ WrongSideNear(pre, e) ==
 FailSituations(pre, e) ==
   {"fail." \o e.name, "err." \o ToString(e.err)} \cup Sit("fail.probe", e.probe) \cup Sit("fail.panic", e.panic)
   \cup Sit("refused.swap_limit_on_wrong_side_inside_current_tick", IsSwapName(e.name) /\ Has(e.args, "pool") /\ APool(e) \in DOMAIN pre.pool /\ WrongSideNear(pre, e))
+  \cup Sit("refused.emissions_one_token_short_of_a_day", e.name \in {"set_reward_emissions", "set_reward_emissions_v2"} /\ HasSlot(e, "reward_vault") /\ e.slots.reward_vault.id \in DOMAIN pre.tok
+            /\ BDiv(86400 \otimes e.args.emissions, BPow2(64)) \doteq (Bal(pre, e.slots.reward_vault.id) ++ 1))
   \cup Sit("refused.swap_before_trade_enabled", IsSwapName(e.name) /\ Has(e.args, "pool") /\ TradePending(pre, e, APool(e)))
   \cup Sit("refused.twohop_first_leg_before_trade_enabled", e.name \in {"two_hop_swap", "two_hop_swap_v2"} /\ TradePending(pre, e, e.slots.whirlpool_one.id))
   \cup Sit("refused.twohop_second_leg_before_trade_enabled", e.name \in {"two_hop_swap", "two_hop_swap_v2"} /\ TradePending(pre, e, e.slots.whirlpool_two.id))
